@@ -231,6 +231,18 @@ fn num_colon_num_text(s: &str) -> bool {
     }
     false
 }
+/// a range literal that is printed without its column part ("2:5": columns $A..$XFD) or without its row part ("B:D"):
+/// its text starts / ends with a bare number or bare letters
+fn is_full_line_range(n: &Node) -> bool {
+    matches!(n, Node::RangeKind { absolute_row1, absolute_column1, row1, column1, absolute_row2, absolute_column2, row2, column2, .. }
+           | Node::WrongRangeKind { absolute_row1, absolute_column1, row1, column1, absolute_row2, absolute_column2, row2, column2, .. }
+        if (*absolute_column1 && *absolute_column2 && *column1 == 1 && *column2 == 16384) || (*absolute_row1 && *absolute_row2 && *row1 == 1 && *row2 == 1_048_576))
+}
+/// F04 family, bare operand of ':' next to a full-row / full-column range: "10/4:2:2" is lexed as 10 / rows 4:2 followed by ":2"
+/// (the token-level glue model treats the range as one opaque token): character level, oracle only (class lexer_glue:*)
+fn colon_next_to_full_line_range(n: &Node) -> bool {
+    contains(n, &|x| matches!(x, Node::OpRangeKind { left, right } if is_full_line_range(leftmost(right)) || is_full_line_range(rightmost(left))))
+}
 fn classify(n: &Node, dot: bool, lang: &str, pasted: &str, other: bool) -> Vec<String> {
     let mut pairs = vec![];
     moved_bad_pairs(n, &mut pairs);
@@ -247,6 +259,7 @@ fn classify(n: &Node, dot: bool, lang: &str, pasted: &str, other: bool) -> Vec<S
         return vec!["moved_lambda_optional_parameter_loses_brackets".into()];
     }
     if let Some(g) = glue_class(n, false) { return vec![format!("lexer_glue:{g}")]; }
+    if colon_next_to_full_line_range(n) { return vec!["lexer_glue:number_colon".into()]; }
     // pasted on another sheet an unqualified reference acquires the sheet name: "Sheet1!A1:x" is F04 too
     if other && contains(n, &|x| matches!(x, Node::OpRangeKind { left, .. } if matches!(rightmost(left), Node::ReferenceKind { .. }))) { return vec!["lexer_glue:ref_colon_F04".into()]; }
     // (F01 "#N/IMPL" spelling is repaired by 4a681a0: no class of its own any more)
@@ -294,7 +307,7 @@ impl<'a> Run<'a> {
         if self.samples.len() < 12 && self.cs.n % 1777 == 5 { self.samples.push(format!("{locale}/{lang} {text} cut {:?} => {pasted}", cx)); }
         // the debris a non-English lexer makes of an English error name depends on what follows it
         let tie = !(lang != "en" && contains(&n, &|x| matches!(x, Node::ErrorKind(_)) || array_has_error(x, false)))
-            && !contains(&n, &|x| matches!(x, Node::ParseErrorKind { .. })) && !num_colon_num_text(&body)
+            && !contains(&n, &|x| matches!(x, Node::ParseErrorKind { .. })) && !num_colon_num_text(&body) && !colon_next_to_full_line_range(&n)
             // a reference that is off the grid already at the source (full-row / full-column spelling of its partner): C09's printer model
             && (body.matches("#REF!").count() == text.matches("#REF!").count())
             // in a comma-decimal locale the hard-coded ',' is not a separator token at all (it continues or starts a
